@@ -2,6 +2,8 @@ import CookModel.Analysis.Collector
 import CookModel.Lemmas.Determinism
 import CookModel.Lemmas.DeterminismLocs
 import CookModel.Props.C16
+import CookModel.Lemmas.TableFacts
+import CookModel.Lemmas.TableSearch
 /-
   C18  Parsing is deterministic, stateless across calls and thread-safe.
 
@@ -265,5 +267,74 @@ theorem C18_bundled_index_keys_unique :
 example : ∃ conv : Bld.Converter Rat, Bld.bundled = .ok conv ∧ conv.index.Perm conv.index.reverse :=
   let ⟨conv, hb, _⟩ := C18_bundled_index_keys_unique
   ⟨conv, hb, (List.reverse_perm _).symm⟩
+/-! ### the generated tables of the real code
+
+    The hash-order theorems above assume unique keys.  For the tables the driver actually uses — the key table of
+    `Converter::bundled()` and unicase's fold table, both written by `harness chartable` from the real code on every
+    check as Lean literals — uniqueness is PROVED (`Lemmas/TableFacts.lean`, decided by the kernel on the generated
+    lists), so the statements below have no uniqueness hypothesis left. -/
+
+/-- the keys of the generated key table of the bundled converter are pairwise different -/
+theorem C18_bundled_unit_keys_nodup_real : (unitKeyTable.map (·.1)).Nodup := tbl_unitKeys_nodup
+
+/-- the characters of the generated unicase fold table are pairwise different -/
+theorem C18_fold_keys_nodup_real : (realFoldAssoc.map (·.1)).Nodup := tbl_fold_nodup
+
+open Bld in
+/-- `C18_unit_index_order_irrelevant` at the key table of the bundled converter: every enumeration `idx'` of the
+    entries of the generated table gives the parser the same result on every input -/
+theorem C18_unit_index_order_irrelevant_real (base : Env) (pqOf : Nat → Option Nat) (idx' : Index)
+    (hp : List.Perm unitKeyTable idx') (input : Str) :
+    parseRecipe (α := α) (envWithIndex base unitKeyTable pqOf) input = parseRecipe (envWithIndex base idx' pqOf) input :=
+  C18_unit_index_order_irrelevant base pqOf unitKeyTable idx' hp tbl_unitKeys_nodup input
+
+open Bld in
+/-- the environment of the differential runs (`findUnit := bundledFindUnit`) parses every input exactly as an
+    environment that reads the same entries in ANY other order through a unit index -/
+theorem C18_bundled_unit_index_order_irrelevant_real (base : Env) (idx' : Index) (hp : List.Perm unitKeyTable idx')
+    (input : Str) :
+    parseRecipe (α := α) ({ base with findUnit := bundledFindUnit } : Env) input =
+      parseRecipe (envWithIndex base idx' some) input := by
+  rw [C18_bundled_find_unit_is_index_lookup]
+  exact C18_unit_index_order_irrelevant base some unitKeyTable idx' hp tbl_unitKeys_nodup input
+
+open Bld in
+/-- `C18_unit_index_insertion_order_irrelevant` at the key table of the bundled converter: inserting its entries
+    into a `HashMap` in any order `l'` gives the same lookups and the same parse results -/
+theorem C18_unit_index_insertion_order_irrelevant_real (base : Env) (pqOf : Nat → Option Nat) (l' : List (Key × Nat))
+    (hp : List.Perm unitKeyTable l') (input : Str) :
+    (∀ k, idxGet (unitKeyTable.foldl idxInsert []) k = idxGet (l'.foldl idxInsert []) k) ∧
+    parseRecipe (α := α) (envWithIndex base (unitKeyTable.foldl idxInsert []) pqOf) input =
+      parseRecipe (envWithIndex base (l'.foldl idxInsert []) pqOf) input :=
+  C18_unit_index_insertion_order_irrelevant base pqOf unitKeyTable l' hp tbl_unitKeys_nodup input
+
+/-- `C18_fold_table_order_irrelevant` at unicase's generated fold table: any reordering of its entries folds, and
+    hence parses, alike -/
+theorem C18_fold_table_order_irrelevant_real (base : Env) (tbl' : List (Char × List Char))
+    (hp : List.Perm realFoldAssoc tbl') (input : Str) :
+    parseRecipe (α := α) (envWithFoldTable base realFoldAssoc) input = parseRecipe (envWithFoldTable base tbl') input :=
+  C18_fold_table_order_irrelevant base realFoldAssoc tbl' hp tbl_fold_nodup input
+
+/-- the fold of the differential runs (`fold := realFold`, a binary search in the generated table) IS the lookup in
+    that table read as an association list, so `C18_fold_table_order_irrelevant` speaks about the modelled folding -/
+theorem C18_real_fold_is_table_lookup_real (base : Env) :
+    ({ base with fold := realFold } : Env) = envWithFoldTable base realFoldAssoc := by
+  unfold envWithFoldTable
+  congr 1
+  funext c
+  exact tsr_realFold_eq_lookup c
+
+/-- an environment folding with `realFold` parses every input exactly as one that reads the entries of unicase's
+    table in any other order -/
+theorem C18_real_fold_order_irrelevant_real (base : Env) (tbl' : List (Char × List Char))
+    (hp : List.Perm realFoldAssoc tbl') (input : Str) :
+    parseRecipe (α := α) ({ base with fold := realFold } : Env) input = parseRecipe (envWithFoldTable base tbl') input := by
+  rw [C18_real_fold_is_table_lookup_real]
+  exact C18_fold_table_order_irrelevant base realFoldAssoc tbl' hp tbl_fold_nodup input
+
+/-! non-vacuity: reversing the generated tables is such a reordering (nothing is asserted about their contents
+    beyond key uniqueness, so adding or removing a unit in `units.toml` does not touch these statements) -/
+example : unitKeyTable.Perm unitKeyTable.reverse := (List.reverse_perm _).symm
+example : realFoldAssoc.Perm realFoldAssoc.reverse := (List.reverse_perm _).symm
 
 end Cook
